@@ -168,56 +168,65 @@ new_child_node(struct trie *t, struct trie_node * parent, char ch)
 }
 
 
+/*
+ * Split the segment of @cur_node before position @seg_cnt: a new node
+ * takes the upper part (and @cur_node's place below its parent),
+ * @cur_node keeps the rest together with its entry, children and
+ * notifiers.  @cur_node stays what it was for whoever holds it
+ * (an iterator positioned on it, a reference count).
+ *
+ * return: the new upper node
+ */
 static struct trie_node *
 trie_node_split(struct trie *t, struct trie_node *cur_node, int seg_cnt)
 {
-	struct trie_node *split_node;
-	struct trie_node ** children = cur_node->children;
-	uint32_t num_children = cur_node->num_children;
-	struct qb_list_head *tmp;
-	int i;
-	int s;
+	struct trie_node *upper;
+	struct trie_node *parent = cur_node->parent;
+	char split_ch = cur_node->segment[seg_cnt];
+	uint32_t rest = cur_node->num_segments - seg_cnt - 1;
+	char *upper_segment = NULL;
+	uint32_t i;
 
-	cur_node->children = NULL;
-	cur_node->num_children = 0;
-	split_node = new_child_node(t, cur_node, cur_node->segment[seg_cnt]);
-	if (split_node == NULL) {
-		return NULL;
-	}
-	split_node->children = children;
-	split_node->num_children = num_children;
-	for (i = 0; i < split_node->num_children; i++) {
-		if (split_node->children[i]) {
-			split_node->children[i]->parent = split_node;
-		}
-	}
-	split_node->value = cur_node->value;
-	split_node->key = cur_node->key;
-	split_node->refcount = cur_node->refcount;
-	cur_node->value = NULL;
-	cur_node->key = NULL;
-	cur_node->refcount = 0;
-	/* move notifier list to split */
-	tmp = split_node->notifier_head;
-	split_node->notifier_head = cur_node->notifier_head;
-	cur_node->notifier_head = tmp;
-	qb_list_init(cur_node->notifier_head);
-
-	if (seg_cnt < cur_node->num_segments) {
-		split_node->num_segments = cur_node->num_segments - seg_cnt - 1;
-		split_node->segment = malloc(split_node->num_segments * sizeof(char));
-		if (split_node->segment == NULL) {
-			trie_destroy_node(split_node);
+	if (seg_cnt > 0) {
+		upper_segment = malloc(seg_cnt * sizeof(char));
+		if (upper_segment == NULL) {
 			return NULL;
 		}
-		for (i = (seg_cnt + 1); i < cur_node->num_segments; i++) {
-			s = i - seg_cnt - 1;
-			split_node->segment[s] = cur_node->segment[i];
-			cur_node->segment[i] = '\0';
-		}
-		cur_node->num_segments = seg_cnt;
+		memcpy(upper_segment, cur_node->segment, seg_cnt);
 	}
-	return cur_node;
+	/* takes over @cur_node's slot in @parent */
+	upper = new_child_node(t, parent, TRIE_INDEX2CHAR(cur_node->idx));
+	if (upper == NULL) {
+		parent->children[cur_node->idx] = cur_node;
+		free(upper_segment);
+		return NULL;
+	}
+	upper->segment = upper_segment;
+	upper->num_segments = seg_cnt;
+
+	/* make room for @cur_node below @upper */
+	upper->num_children = QB_MAX(TRIE_CHAR2INDEX(split_ch) + 1, 30);
+	upper->children = calloc(upper->num_children,
+				 sizeof(struct trie_node *));
+	if (upper->children == NULL) {
+		parent->children[cur_node->idx] = cur_node;
+		trie_destroy_node(upper);
+		t->num_nodes--;
+		t->mem_used -= sizeof(struct trie_node);
+		return NULL;
+	}
+	t->mem_used += (sizeof(struct trie_node *) * upper->num_children);
+
+	cur_node->parent = upper;
+	cur_node->idx = TRIE_CHAR2INDEX(split_ch);
+	upper->children[cur_node->idx] = cur_node;
+
+	for (i = 0; i < rest; i++) {
+		cur_node->segment[i] = cur_node->segment[seg_cnt + 1 + i];
+	}
+	cur_node->num_segments = rest;
+
+	return upper;
 }
 
 static struct trie_node *
